@@ -231,6 +231,23 @@ func metaScenario(sc *metaScn, idx int) {
 		a, b := sc.actor("peerA"), sc.actor("peerB")
 		sc.after(sc.do(a, "sub", nil, ""))
 		sc.after(sc.do(b, "sub", nil, ""))
+		if sc.focus != "C06" && idx%2 == 0 {
+			// requests of participants whose sessions are not attached, while the topic is not loaded (the hub's
+			// offline path): the modes stay within JRWPA and keep A there as well
+			sc.after(sc.do(a, "leave", nil, ""))
+			sc.after(sc.do(b, "leave", nil, ""))
+			sc.w.e.vfQuiesce()
+			if sc.w.e.vfWaitUnloaded(sc.canon) {
+				r.Hit("p2p_offline_set")
+				sc.after(sc.do(a, "setSelf", nil, []string{"JRWP", "RW", "N", "JP"}[rng.Intn(4)]))
+				sc.after(sc.do(b, "setSelf", nil, []string{"JRWPASDO", "JRWPS", "JRWPAD"}[rng.Intn(3)]))
+				if sc.w.e.vfWaitUnloaded(sc.canon) {
+					sc.after(sc.do(a, "setOther", b, []string{"JRW", "JRWPASDO", "N"}[rng.Intn(3)]))
+				}
+			}
+			sc.after(sc.do(a, "sub", nil, ""))
+			sc.after(sc.do(b, "sub", nil, ""))
+		}
 	}
 	steps := 8 + rng.Intn(14)
 	for i := 0; i < steps && !sc.deleted; i++ {
